@@ -1459,7 +1459,7 @@ MANIFEST = dict(
     'arrays, None/str/bool/numpy scalars, kinds of the stop decision, of '
     'rep_max and of the index) are concrete or structural variants, not '
     'solver variables'
-    ' Concrete data-representation / scale / boundary probes of the real'
+    '. Concrete data-representation / scale / boundary probes of the real'
     ' code (dtype, container and memory-layout variants, argument'
     ' immutability, magnitudes) accompany the symbolic runs; they are'
     ' differential runs, not solver verdicts.',
